@@ -29,7 +29,7 @@ def text(rnd, xml=True, ws=False, empty=False):
 def ident(rnd, used):
     """UFO identifier: 1..100 chars in 0x20..0x7E, unique in `used`."""
     while True:
-        n = rnd.choice([1, 3, 8, 10, 36, 100])
+        n = rnd.choice([1, 2, 3, 8, 10, 36, 99, 100, 100])      # 100 is the longest identifier the UFO 3 spec allows
         alphabet = "abcXYZ019-_ <&>\"'~ !" if rnd.random() < 0.3 else "abcdefghijklmnopqrstuvwxyzABCDEF0123456789"
         s = "".join(rnd.choice(alphabet) for _ in range(n))
         if s not in used:
@@ -290,9 +290,14 @@ def ds_spec(rnd, fmt, features):
             "sources": [], "variableFonts": [], "instances": [], "lib": {}}
     cont = [a for a in axes if a["kind"] == "continuous"]
     if "mappings" in features and v5 and len(cont) >= 1:
-        for g in range(rnd.choice([1, 2])):
-            gd = rnd.choice([None, text(rnd)])
-            for _ in range(rnd.choice([1, 2])):
+        # group descriptions are a per-mapping attribute of an ORDERED list: groups need not be contiguous
+        # (["low", "high", "low"], [None, "x", None]); also contiguous runs and a single group
+        gpool = [None, text(rnd), text(rnd) + " 2"]
+        nmap = rnd.choice([1, 2, 3, 4, 4, 6])
+        style = rnd.random()
+        for k in range(nmap):
+            gd = gpool[0] if style < 0.15 else gpool[(k * 3 // max(nmap, 1)) % 3] if style < 0.4 else rnd.choice(gpool)
+            for _ in range(1):
                 spec["axisMappings"].append({
                     "inputLocation": {a["name"]: ds_number(rnd, 0, 1000) for a in rnd.sample(cont, rnd.randrange(1, len(cont) + 1))},
                     "outputLocation": {a["name"]: ds_number(rnd, 0, 1000) for a in rnd.sample(cont, rnd.randrange(1, len(cont) + 1))},
